@@ -372,7 +372,8 @@ def monitorE2e (cfg : E2eCfg) (st : E2eState) (op : SOp) (seg : List String) : O
     let retItems : List String := match ret.splitOn ":" with
       | "ret" :: "replies" :: _ :: rest => splitComma (":".intercalate rest)
       | _ => []
-    if op.name = "connect" then
+    if returned && retItems.any (·.startsWith "421:") && conn then some "connected-after-421"
+    else if op.name = "connect" then
       (if returned && retItems.head? != generated.head? then some "first-reply-is-not-the-new-greeting"
        else if returned && !conn && (gen.all fun (c, _) => c != 421) then some "not-connected-after-connect"
        else
